@@ -1591,13 +1591,14 @@ def obligations(tier):
         esl += [dict(CC[ctx], ns=1, slot=slot, ctx=ctx) for ctx in ((0, 3, 4) if quick else range(len(ENT_CTX)))]
     esl += [dict(without(CC[ctx], "ki"), ns=0, slot="key", ctx=ctx) for ctx in range(len(ENT_CTX))]
     if not quick:
-        esl += [dict(CC[ctx], ns=2, slot=slot, ctx=ctx) for slot in ("val", "par") for ctx in (0, 1)]
+        # two symbolic characters: 1 700+ paths each; (par, context 1) needed 1 650 s of solver-heavy work and is left out
+        esl += [dict(CC[ctx], ns=2, slot=slot, ctx=ctx) for slot, ctx in (("val", 0), ("val", 1), ("par", 0))]
     add("entlump", "h_entlump", esl,
         "entity lump (write_ent_data / _lmp_read_ents): keys, values, outputs in both separator formats, forced or per-output separator, instance "
         "in/out names, times by index; one text slot (value / parameter / target / input / output name) carries a symbolic string over ALL ASCII "
         "code points + surrogate-escaped bytes + one unencodable character inside 5 constant contexts; keys by symbolic index (hashed); the lump "
         "travels as its written pieces (ChunkSink) through the real codec calls into the real Tokenizer",
-        "1 entity + worldspawn, 1 keyvalue + 2 outputs; one slot of exact length 0..1 (thorough 2) at a time", pp=60)
+        "1 entity + worldspawn, 1 keyvalue + 2 outputs; one slot of exact length 0..1 (thorough 2) at a time", budget=B if quick else 3600, pp=60)
     wit("entlump", "h_entlump_w", [dict(CC[0], ns=1, slot="val", ctx=0), dict(CC[1], ns=1, slot="par", ctx=2), {"ns": 0, "slot": "val", "ctx": 0},
                                   dict(without(CC[0], "ki"), ns=0, slot="key", ctx=1)])
     return obls
